@@ -27,6 +27,7 @@ def run(ctx):
         ctx.touch(f)
         rows = []
         bad = []
+        helper_rows = set()
         for p in enum_paths(f):
             atoms = path_atoms(f, p)
             r = path_return(f, p, atoms)
@@ -35,6 +36,9 @@ def run(ctx):
             s = soft[0][2] if soft else None
             e = exp[0][2] if exp else None
             rows.append((s, e, fmt(r)))
+            if s is False and e is None and r[0] == "unop" and r[1] == "Not" and r[2][0] == "call" and r[2][1] in L.expired_fns and r[2][2][0] == ("param", 1) and rooted_in_param(r[2][2][1], 2):
+                helper_rows.add(r[2][1])
+                continue
             if s is True:
                 if not (r[0] == "const" and r[1] == 0):
                     bad.append("soft-deleted entry reported alive")
@@ -50,7 +54,26 @@ def run(ctx):
             else:
                 bad.append("path does not test soft-delete first / expiry (row %s)" % ((s, e),))
         ctx.analysed["paths"] += len(rows)
-        ctx.check(not bad and len(rows) >= 3, "R09.1", "%s|liveness-table" % an,
+        for hn in sorted(helper_rows):
+            h = F.fn(hn)
+            hbad = []
+            hrows = 0
+            for p in enum_paths(h):
+                atoms = path_atoms(h, p)
+                r = path_return(h, p, atoms)
+                exp = [a for a in atoms if a[0] == "enum" and a[1] == ("field", ("param", 1), L.EXP)]
+                hrows += 1
+                if exp and exp[0][2] == ("None",):
+                    if not (r[0] == "const" and r[1] == 0):
+                        hbad.append("no expiry must mean not expired")
+                elif exp and exp[0][2] == ("Some",):
+                    payload = ("field", ("variant", ("field", ("param", 1), L.EXP), "Some"), "0")
+                    if not (r[0] == "call" and "Clock::has_passed" in r[1] and rooted_in_param(r[2][0], 2) and strip_site(r[2][1]) == payload):
+                        hbad.append("expired must be clock.has_passed(its expiry), found %s" % fmt(r))
+                else:
+                    hbad.append("expiry not examined")
+            ctx.check(not hbad and hrows >= 2, "R09.1", "%s|expiry-passed-table" % hn, "expiry helper: false without an expiry, clock.has_passed(expiry) otherwise", h.where(), "; ".join(hbad))
+        ctx.check(not bad and (len(rows) >= 3 or (helper_rows and len(rows) >= 2)), "R09.1", "%s|liveness-table" % an,
                   "is_alive = false if soft-deleted; true if no expiry; !has_passed(expiry) otherwise (%d rows)" % len(rows), f.where(), "; ".join(bad) or str(rows))
     # ---- R09.2 default has_passed strict -----------------------------------------------------------
     hp = [f for n, f in F.fns.items() if n.endswith("Clock::has_passed")]
@@ -144,6 +167,7 @@ def run(ctx):
         ctx.check(ok, "R09.5", "%s|read-filters-on-liveness" % f.name,
                   "a store lookup that returns the entry's value applies is_alive to the same entry (under the same shard guard) before returning it", f.where(bb), form)
     ctx.floor("R09.5", "value-returning store lookups", n_read, 2)
+    no_overwrite(ctx, "R09.7")
     # ---- R09.6 boundary agreement --------------------------------------------------------------------------
     sweeps = []
     for n, f in F.fns.items():
@@ -163,3 +187,14 @@ def run(ctx):
             nowe = cc[1].get("now")
             ctx.check(nowe is not None and is_call_to(nowe, "Clock::now"), "R09.6", "%s|now-is-clock-now" % f.name,
                       "the sweeper's `now` is read from the clock once per sweep", f.where(), fmt(nowe) if nowe else "")
+
+def no_overwrite(ctx, RULE):
+    """hooks remove store entries by key: that hits the right incarnation only if a store insert never overwrites
+    an existing entry (C05 R05.3)"""
+    import c05
+    sub = type(ctx)(ctx.prop, ctx.facts, ctx.tier, ctx.config)
+    c05.run(sub)
+    for o in sub.obligations:
+        if o["rule"] == "R05.3":
+            ctx._add(o["status"], RULE, o["key"].split("|", 1)[1],
+                     o["desc"] + " [needed here because the eviction/expiry hooks remove the store entry by key: an overwritten entry would make a stale id remove a newer incarnation]", o["where"], o["detail"])
